@@ -238,6 +238,9 @@ func runSigCase(ta *TestApp, seed uint64, idx int, rep *Report, profile string) 
 				} else {
 					cert = "-----BEGIN CERTIFICATE-----\nAAAA\n-----END CERTIFICATE-----\n"
 				}
+			case 5: // a bundle: the signer's certificate followed by another one (e.g. the issuing CA's): the first block is the signer's
+				cert = cert + sigIdentities[rng.Intn(len(sigIdentities))].certPEM
+				rep.Count("store.certificate_bundle")
 			case 4: // malformed JSON
 				fieldsOK = false
 				jsonStr = "{\"signature\": \"abc\", "
